@@ -13,7 +13,11 @@ use std::sync::atomic::{AtomicU64, Ordering};
 use std::sync::{Arc, Mutex};
 use std::time::{Duration, Instant};
 
-pub const VERIF_ROOT: &str = "/verif";
+/// Root of the verification tree (evidence, known findings, regressions). `VERIF_ROOT` may be
+/// overridden for development in a scratch worktree.
+pub fn verif_root() -> String {
+    std::env::var("VERIF_ROOT").unwrap_or_else(|_| "/verif".to_string())
+}
 
 #[derive(Clone, Copy, PartialEq, Eq, Debug)]
 pub enum Tier {
@@ -308,7 +312,7 @@ pub struct Known {
 }
 
 pub fn load_known(prop: &str) -> Vec<Known> {
-    let path = format!("{}/KNOWN_FINDINGS.txt", VERIF_ROOT);
+    let path = format!("{}/KNOWN_FINDINGS.txt", verif_root());
     let mut out = vec![];
     let Ok(text) = std::fs::read_to_string(&path) else {
         return out;
@@ -867,7 +871,7 @@ fn merge_worker(m: &mut Merged, v: &Value, stage_name: &str) {
 }
 
 fn work_dir() -> String {
-    let d = format!("{}/.work", VERIF_ROOT);
+    let d = format!("{}/.work", verif_root());
     let _ = std::fs::create_dir_all(&d);
     d
 }
@@ -938,7 +942,7 @@ pub fn run_property(prop: &'static Prop, tier: Tier, seed: u64, exe: &str) -> Ru
     // 1. replay known-finding repros and regressions (strict, in a child each)
     let mut known_alive: Vec<&Known> = vec![];
     for k in &known {
-        let path = format!("{}/{}", VERIF_ROOT, k.repro);
+        let path = format!("{}/{}", verif_root(), k.repro);
         match replay_in_child(&cfg, &path, Some(&k.sig)) {
             ReplayResult::Fail(sig, _) if sig == k.sig => known_alive.push(k),
             ReplayResult::Fail(sig, detail) => {
@@ -955,7 +959,7 @@ pub fn run_property(prop: &'static Prop, tier: Tier, seed: u64, exe: &str) -> Ru
         }
     }
     let mut regressions = 0u64;
-    let regdir = format!("{}/regressions/{}", VERIF_ROOT, prop.id);
+    let regdir = format!("{}/regressions/{}", verif_root(), prop.id);
     if let Ok(rd) = std::fs::read_dir(&regdir) {
         let mut files: Vec<_> = rd.filter_map(|e| e.ok()).map(|e| e.path()).filter(|p| p.extension().map(|x| x == "json").unwrap_or(false)).collect();
         files.sort();
@@ -1101,7 +1105,7 @@ pub fn run_property(prop: &'static Prop, tier: Tier, seed: u64, exe: &str) -> Ru
         println!("KNOWN-FINDING: property={} {} [sig={}]", prop.id, k.what, k.sig);
     }
     for l in &lines { println!("{}", l); }
-    let replay_dir = format!("{}/replays/{}", VERIF_ROOT, prop.id);
+    let replay_dir = format!("{}/replays/{}", verif_root(), prop.id);
     for f in &merged.failures {
         let _ = std::fs::create_dir_all(&replay_dir);
         let name = format!("{}/{:016x}.json", replay_dir, fnv(f.sig.as_bytes()));
@@ -1147,7 +1151,7 @@ pub fn run_property(prop: &'static Prop, tier: Tier, seed: u64, exe: &str) -> Ru
         "wall_s": (wall * 100.0).round() / 100.0,
         "violations": merged.failures.len(),
     });
-    let evdir = format!("{}/evidence", VERIF_ROOT);
+    let evdir = format!("{}/evidence", verif_root());
     let _ = std::fs::create_dir_all(&evdir);
     let _ = std::fs::write(format!("{}/{}.json", evdir, prop.id), serde_json::to_string_pretty(&evidence).unwrap() + "\n");
     println!(
